@@ -36,6 +36,15 @@ OBS = ["dir", "getattr", "row", "setitem", "getitem", "repr"]
 # generation
 # --------------------------------------------------------------------------------------------
 
+def _public_attribute_names():
+    import serif
+    from serif.table import Row
+    names = set()
+    for cls in (serif.Vector, serif.Table, Row):
+        names |= {n for n in dir(cls) if not n.startswith("_")}
+    return sorted(names)
+
+
 def _rand_name(rng):
     r = rng.random()
     if r < 0.55:
@@ -85,6 +94,12 @@ def generate(rng, tier):
                 if pool is CORE:
                     seen_scope.add((n, names))
                 yield {"fam": "static", "names": list(names), "ops": [], "obs": OBS}
+    # 1b. every public attribute of the classes a column accessor is looked up on, as a column name (alone, and upper-cased
+    #     next to a plain column): the advertised accessor must never be such an attribute — whatever kind of attribute it is
+    #     (method, property, classmethod, staticmethod …)
+    for n in _public_attribute_names():
+        yield {"fam": "static", "names": [n], "ops": [], "obs": OBS}
+        yield {"fam": "static", "names": ["a", n.upper()], "ops": [], "obs": OBS}
     # 2. sanitisation of single names
     for _ in range(3000 if quick else 30000):
         yield {"fam": "san", "names": ["".join(rng.choice(ALPHA) for _ in range(rng.randint(0, 9)))], "ops": [], "obs": ["dir", "getattr", "repr"]}
